@@ -367,6 +367,218 @@ def _matmul_by_evaluation(ctx, ck, base, comp, identity, homothety) -> bool:
     return True
 
 
+def _additive_by_evaluation(ctx, ck, base, comp, add, identity, homothety) -> bool:
+    """S2/S4 for `+` and `-`, decided by evaluating L + R and L - R (sa/axinterp.py, Python's operator protocol included) on
+    every pair of: opaque operators A and B, the sum A + B, the product A @ B, the identity and a scalar operator, all square
+    on one structure.  The result, read as a formal sum of signed terms (each term a product of opaque factors and scalars),
+    must hold the terms of L and the terms of R with their signs (negated for `-`), nothing dropped, nothing doubled.
+    Returns True when decided."""
+    import itertools
+    from collections import Counter
+
+    from ..axinterp import Interp, Obj, Opaque, Raised, StructLeaf, Sym, Undecided, UNK
+    from .. import run as _run
+
+    if _run.CONTROL_EXPECT and not _run.CONTROL_EXPECT.endswith(('S2', 'S4')):
+        return False
+    world, table = ctx.world, ctx.table
+    generic = table.find('furax._base.dense.DenseBlockDiagonalOperator')
+    out_fn = base.own.get('out_structure')
+    if generic is None:
+        return False
+    S = StructLeaf(((frozenset({'s'}), 3),))
+
+    def make():
+        A, B = (Obj(generic, {'_in_structure': S, '__out__': S, 'name': n}) for n in 'AB')
+        fam = {
+            'A': A, 'B': B,
+            '(A + B)': Obj(add, {'operands': [A, B], '__out__': S}),
+            '(A @ B)': Obj(comp, {'operands': [A, B], '__out__': S}),
+            'I': Obj(identity, {'_in_structure': S, '__out__': S}),
+            'k': Obj(homothety, {'value': Opaque('k'), '_in_structure': S, '__out__': S}),
+        }
+        return fam
+
+    def coeff(v):
+        """(sign, scalar names) of a scalar value built from symbols, +-1 and products; None when not of that form."""
+        if isinstance(v, Opaque):
+            return 1, [v.name]
+        if isinstance(v, (int, float)) and not isinstance(v, bool) and v in (1, -1):
+            return int(v), []
+        if isinstance(v, Sym) and v.op in ('jnp.asarray', 'jnp.array', 'pos') and v.args:
+            return coeff(v.args[0])
+        if isinstance(v, Sym) and v.op == 'neg':
+            c = coeff(v.args[0])
+            return None if c is None else (-c[0], c[1])
+        if isinstance(v, Sym) and v.op == '*' and len(v.args) == 2:
+            a_, b_ = coeff(v.args[0]), coeff(v.args[1])
+            return None if a_ is None or b_ is None else (a_[0] * b_[0], a_[1] + b_[1])
+        return None
+
+    def terms(o, sign=1):
+        """The operator as a list of (sign, scalar names, factor names); None when it holds something unknown."""
+        if not isinstance(o, Obj):
+            return None
+        if o.cls is add:
+            ops = o.attrs.get('operands')
+            leaves = list(ops.values()) if isinstance(ops, dict) else list(ops) if isinstance(ops, (list, tuple)) else None
+            if leaves is None:
+                return None
+            out = []
+            for x in leaves:
+                t = terms(x, sign)
+                if t is None:
+                    return None
+                out += t
+            return out
+        if o.cls is comp:
+            ops = o.attrs.get('operands')
+            if not isinstance(ops, (list, tuple)):
+                return None
+            sg, ks, ws = sign, [], []
+            for x in ops:
+                t = terms(x)
+                if t is None or len(t) != 1:
+                    return None  # a sum inside a product: not expanded here
+                sg *= t[0][0]
+                ks += t[0][1]
+                ws += t[0][2]
+            return [(sg, tuple(sorted(ks)), tuple(ws))]
+        if o.cls is homothety:
+            c = coeff(o.attrs.get('value'))
+            return None if c is None else [(sign * c[0], tuple(sorted(c[1])), ())]
+        if o.cls is identity:
+            return [(sign, (), ())]
+        if o.cls is generic:
+            return [(sign, (), (o.attrs['name'],))]
+        return None
+
+    it = Interp(world, table, budget=200_000)
+    it.symbolic = True
+    it.constructible = {k.qual for k in table.operators()}
+    if isinstance(out_fn, ast.FunctionDef):
+        it.summaries[id(out_fn)] = lambda args, kwargs: args[0].attrs.get('__out__', UNK)
+    problems: list[str] = []
+    n = 0
+    names = list(make())
+    for op_node, sym in ((ast.Add, '+'), (ast.Sub, '-')):
+        for ln, rn in itertools.product(names, repeat=2):
+            fam = make()
+            L, R = fam[ln], fam[rn]
+            if ln == rn:
+                R = make()[rn]  # two distinct objects
+            text = f'{ln} {sym} {rn}'
+            it.steps = 0
+            del it.degraded[:]
+            n += 1
+            tl, trr = terms(L), terms(R)
+            try:
+                res = it._object_binop(op_node, L, R)
+            except Raised as exc:
+                problems.append(f'{text} raises {exc.name}')
+                continue
+            except Undecided as exc:
+                ck.note(f'S4: {text} could not be evaluated: {exc}' + (f' [{it.degraded[0]}]' if it.degraded else ''))
+                return False
+            if it.degraded or res is UNK:
+                ck.note(f'S4: {text} could not be evaluated: {(it.degraded or ["unknown result"])[0]}')
+                return False
+            if res is NotImplemented:
+                problems.append(f'{text} evaluates to NotImplemented: the hand-over sentinel is returned as a value (Python raises TypeError)')
+                continue
+            got = terms(res)
+            if got is None or tl is None or trr is None:
+                ck.note(f'S4: the result of {text} is not a sum of products of the given operands: not decided by evaluation')
+                return False
+            want = Counter(tl) + Counter((-sg if sym == '-' else sg, ks, ws) for sg, ks, ws in trr)
+            if Counter(got) != want:
+                show_t = lambda ts: ' '.join(('+' if sg > 0 else '-') + ('*'.join(ks + ws) or '1') for sg, ks, ws in sorted(ts, key=repr))  # noqa: E731
+                problems.append(f'{text} is built as {show_t(got)}, which is not {show_t(list(want.elements()))}')
+    sub_r = table.resolve(base, '__sub__')
+    ck.expect('S4', not problems, sub_r.node if sub_r is not None else base.node, f'L + R and L - R hold the terms of L and the (negated) terms of R, for all {n} pairs of opaque operators, a sum, a product, the identity and a scalar operator',
+              f'{problems[0] if problems else ""} ({len(problems)} of {n})', instance='+ and - by evaluation', semantic=True)
+    ck.floor('S4', n, 60, 'sums and differences evaluated')
+    return True
+
+
+def _structure_guards_by_evaluation(ctx, ck, base) -> bool:
+    """S1 decided by evaluating L @ R, L + R and L - R (sa/axinterp.py) on opaque operators whose structures agree or differ
+    in one respect - a leaf shape, a leaf dtype, the container type (list / tuple), a dict key, the nesting with the same
+    leaves: the product needs in_structure(L) == out_structure(R), the sum both sides equal; every mismatch must raise
+    ValueError, every match must build an operator.  Returns True when decided."""
+    from ..axinterp import Interp, Obj, Raised, StructLeaf, Undecided, UNK
+    from .. import run as _run
+
+    if _run.CONTROL_EXPECT and not _run.CONTROL_EXPECT.endswith(('S1', 'O7')):
+        return False
+    world, table = ctx.world, ctx.table
+    generic = table.find('furax._base.dense.DenseBlockDiagonalOperator')
+    out_fn = base.own.get('out_structure')
+    if generic is None:
+        return False
+    s = StructLeaf(((frozenset({'s'}), 3),), 'float32')
+    t = StructLeaf(((frozenset({'t'}), 4),), 'float32')
+    s64 = StructLeaf(((frozenset({'s'}), 3),), 'float64')
+    variants = {
+        'the same structure': ([s, t], [s, t], True),
+        'another leaf shape': ([s, t], [s, s], False),
+        'another leaf dtype': ([s, t], [s64, t], False),
+        'a tuple instead of a list': ([s, t], (s, t), False),
+        'another dict key': ({'a': s, 'b': t}, {'a': s, 'c': t}, False),
+        'the same leaves nested differently': ([s, [t, s]], [[s, t], s], False),
+        'one leaf more': ([s, t], [s, t, s], False),
+    }
+    other = StructLeaf(((frozenset({'o'}), 5),), 'float32')
+    problems: list[str] = []
+    n = 0
+    for text, (x, y, same) in variants.items():
+        for sym, op_node in (('@', ast.MatMult), ('+', ast.Add), ('-', ast.Sub)):
+            cases = []
+            if sym == '@':
+                cases.append((Obj(generic, {'_in_structure': x, '__out__': other, 'name': 'L'}), Obj(generic, {'_in_structure': other, '__out__': y, 'name': 'R'}), 'in_structure(L) vs out_structure(R)'))
+            else:
+                cases.append((Obj(generic, {'_in_structure': x, '__out__': other, 'name': 'L'}), Obj(generic, {'_in_structure': y, '__out__': other, 'name': 'R'}), 'the input structures'))
+                cases.append((Obj(generic, {'_in_structure': other, '__out__': x, 'name': 'L'}), Obj(generic, {'_in_structure': other, '__out__': y, 'name': 'R'}), 'the output structures'))
+            for L, R, which in cases:
+                n += 1
+                it = Interp(world, table, budget=40_000)
+                it.symbolic = True
+                it.constructible = {k.qual for k in table.operators()}
+                if isinstance(out_fn, ast.FunctionDef):
+                    it.summaries[id(out_fn)] = lambda args, kwargs: args[0].attrs.get('__out__', UNK)
+                what = f'L {sym} R with {text} for {which}'
+                try:
+                    res = it._object_binop(op_node, L, R)
+                    raised = None
+                except Raised as exc:
+                    raised, res = exc.name, None
+                except Undecided as exc:
+                    ck.note(f'S1: {what} could not be evaluated: {exc}' + (f' [{it.degraded[0]}]' if it.degraded else ''))
+                    return False
+                if it.degraded:
+                    ck.note(f'S1: {what} could not be evaluated: {it.degraded[0]}')
+                    return False
+                if same and raised:
+                    problems.append(f'{what} raises {raised}')
+                if not same and raised != 'ValueError':
+                    problems.append(f'{what} ' + (f'raises {raised} instead of ValueError' if raised else 'builds an operator instead of raising ValueError: operands whose structures do not agree are combined'))
+    mm = table.resolve(base, '__matmul__')
+    ck.expect('S1', not problems, mm.node if mm is not None else base.node, f'on {n} combinations (product, sum, difference; shape / dtype / container / key / nesting / length mismatches) operators are combined exactly when the structures agree, and ValueError is raised otherwise',
+              f'{problems[0] if problems else ""} ({len(problems)} of {n})', instance='structure guards by evaluation', semantic=True)
+    ck.floor('S1', n, 30, 'structure combinations evaluated')
+    return True
+
+
+def _supersede_additive_forms(ck, start: int) -> None:
+    kept = []
+    for i, o in enumerate(ck.obs):
+        if i >= start and o.rule.endswith(('S2', 'S4')) and o.status == 'incomplete' and any(w in (o.construct + o.how) for w in ('__add__', '__radd__', '__sub__', '__rsub__')) and 'by evaluation' not in o.construct:
+            ck.note(f'{o.rule} [{o.construct}] not decided structurally ({o.how[:100]}); superseded by the evaluation of the sums and differences')
+            continue
+        kept.append(o)
+    ck.obs[:] = kept
+
+
 def _supersede_matmul_forms(ck, start: int) -> None:
     kept = []
     for i, o in enumerate(ck.obs):
@@ -407,6 +619,10 @@ def run(ctx, ck) -> None:
         _supersede_scalar_forms(ck, s4_start)
     if _matmul_by_evaluation(ctx, ck, base, comp, identity, homothety):
         _supersede_matmul_forms(ck, s4_start)
+    additive_decided = _additive_by_evaluation(ctx, ck, base, comp, add, identity, homothety)
+    if _structure_guards_by_evaluation(ctx, ck, base):
+        # the written form of the guards of the base dunders is kept only where it confirms
+        ck.obs[s4_start:] = [o for o in ck.obs[s4_start:] if not (o.rule.endswith('S1') and o.status == 'incomplete' and 'AbstractLinearOperator.__' in o.construct)]
     ck.floor('S1', ndunders, 16, 'arithmetic dunders on operator classes')
     ck.floor('S1', npaths, 14, 'operator-returning paths of structural binary dunders')
 
@@ -421,6 +637,8 @@ def run(ctx, ck) -> None:
             good = rt in (('binop', '+', s_, ('unop', 'neg', o_)), ('binop', '+', ('unop', 'neg', o_), s_), ('binop', '+', s_, ('binop', '*', ('unop', 'neg', ('const', '1')), o_)),
                           ('binop', '+', s_, ('binop', '*', ('const', '-1'), o_)))
             ck.expect('S4', good, sub_fn, 'A - B is A + (-B): the right operand negated exactly once, the left one untouched', f'A - B is built as {show(rt)}', instance='__sub__ form')
+    if additive_decided:
+        _supersede_additive_forms(ck, s4_start)
 
     # ------------------------------------------------------------------ S3 hand-over
     for cls in classes:
